@@ -402,7 +402,7 @@ static const dv_entry *ref_derive(const sdesc *d, int kind, int param) {
 }
 
 /* ------------------------------------------------------------------ alphabet */
-enum { K_PARSE = 0, K_GARBAGE, K_LOG, K_CLONE, K_SERIALIZE, K_VERIFY, K_EXTEND, K_PREPEND, K_ADDROOT };
+enum { K_PARSE = 0, K_GARBAGE, K_LOG, K_CLONE, K_SERIALIZE, K_VERIFY, K_EXTEND, K_PREPEND, K_ADDROOT, K_GETTERS };
 typedef struct { int kind, slot, a, b, c, d, sub; } op_t;
 #define MAXOPS 400
 static op_t OPS[MAXOPS];
@@ -431,6 +431,7 @@ static void build_ops(void) {
 		int ss = s < 2;
 		add_op(K_CLONE, s, 0, 0, 0, 0, ss);
 		add_op(K_SERIALIZE, s, 0, 0, 0, 0, 0);
+		add_op(K_GETTERS, s, 0, 0, 0, 0, ss);
 		for (pol = 0; pol < P_NPOL; pol++) for (doc = 0; doc < D_NDOC; doc++) for (lvl = 0; lvl < NLEVEL; lvl++) {
 			int sub = ss && ((pol == P_INTERNAL && doc == D_NONE && lvl != 2) || (pol == P_INTERNAL && doc == D_OTHER && lvl == 0) || (pol == P_CALENDAR && doc == D_NONE && lvl == 0));
 			add_op(K_VERIFY, s, pol, doc, lvl, FXE_CORRECT, sub);
@@ -453,6 +454,7 @@ static const char *op_text(const op_t *o) {
 		case K_LOG: snprintf(p, 160, "loglevel(%s)", o->a == KSI_LOG_NONE ? "none" : "debug"); break;
 		case K_CLONE: snprintf(p, 160, "clone(slot%d)", o->slot); break;
 		case K_SERIALIZE: snprintf(p, 160, "serialize(slot%d)", o->slot); break;
+		case K_GETTERS: snprintf(p, 160, "getters(slot%d)", o->slot); break;
 		case K_VERIFY: snprintf(p, 160, "verify(slot%d,%s,doc=%s,level=%u,extender=%s)", o->slot, PNAME[o->a], DNAME[o->b], LEVELS[o->c], FXE_NAME[o->d]); break;
 		case K_EXTEND: snprintf(p, 160, "extend(slot%d,extender=%s)", o->slot, FXE_NAME[o->a]); break;
 		case K_PREPEND: snprintf(p, 160, "prepend(slot%d,startlevel=%d)", o->slot, o->a); break;
@@ -642,6 +644,29 @@ static void exec_op(const op_t *o) {
 				FAIL("serialization-changed", "op #%d %s: rc 0x%x, %zu bytes, created with %zu bytes", H.opno, op_text(o), rc, rl, src->d.bytes.n);
 			KSI_free(raw);
 			vf_outcome("serialize:ok");
+			break;
+		}
+		case K_GETTERS: {
+			/* everything the signature hands out to the caller is read and released the way the headers prescribe; a few hashes are then
+			 * created and dropped on the context (its pool of recycled hash objects is exercised) */
+			KSI_DataHash *ph = NULL, *doc = NULL, *tmp = NULL;
+			KSI_Utf8String *ps = NULL;
+			KSI_LIST(KSI_Utf8String) *refs = NULL, *urls = NULL;
+			KSI_HashChainLinkIdentityList *ids = NULL;
+			KSI_Integer *t = NULL;
+			time_t when = 0;
+			char idbuf[256];
+			int k;
+			KSI_Signature_getPublicationInfo(src->sig, &ph, &ps, &when, &refs, &urls);
+			KSI_DataHash_free(ph); KSI_Utf8String_free(ps); KSI_Utf8StringList_free(refs); KSI_Utf8StringList_free(urls);
+			KSI_Signature_getDocumentHash(src->sig, &doc);              /* borrowed */
+			KSI_Signature_getSigningTime(src->sig, &t);                 /* borrowed */
+			KSI_Signature_getAggregationHashChainIdentity(src->sig, &ids);
+			KSI_HashChainLinkIdentityList_free(ids);
+			(void)idbuf;
+			for (k = 0; k < 3; k++) { tmp = NULL; KSI_DataHash_create(H.w.ctx, "c11-pool", 3 + (size_t)k, KSI_HASHALG_SHA2_256, &tmp); KSI_DataHash_free(tmp); }
+			g_calls += 8;
+			vf_outcome("getters:done");
 			break;
 		}
 		case K_VERIFY: {
